@@ -468,9 +468,9 @@ def replay(path):
     rec = json.load(open(path))
     if rec["case"].startswith("cls_"):
         import classgen
-        _EXTRA.extend(classgen.cases(int(rec.get("seed", 0)), 2000))
+        _EXTRA.extend(classgen.cases(int(rec.get("seed", 0)), 500))
     if rec["case"].startswith("rnd_"):
-        _EXTRA.extend(random_cases(int(rec["case"].split("_")[1]), 150))
+        _EXTRA.extend(random_cases(int(rec["case"].split("_")[1]), 80))
     case = [c for c in all_cases() if c.tag == rec["case"]]
     if not case:
         print("unknown corpus case", rec["case"])
@@ -635,7 +635,7 @@ def main(argv):
         cases = [c for c in smt_cases() if c.tag.startswith("icase")]
     elif mode_prop == "C12":
         import classgen
-        cases = classgen.cases(seed, 40 if tier == "quick" else 2000)
+        cases = classgen.cases(seed, 40 if tier == "quick" else 500)
         _EXTRA.extend(cases)
     elif mode_prop == "C09":
         cases = iteration_cases() + [c for i, c in enumerate(smt_cases()) if tier != "quick" or (i + seed) % 5 == 0]
@@ -644,7 +644,7 @@ def main(argv):
         if tier == "quick":
             cases = [c for i, c in enumerate(cases) if (i + seed) % 6 == 0 or c.tag in ("nq_opt_1_2",) or c.tag.startswith("nqla_")]
     else:
-        cases = smt_cases() + random_cases(seed, 12 if tier == "quick" else 150)
+        cases = smt_cases() + random_cases(seed, 12 if tier == "quick" else 80)
         _EXTRA.extend(cases[len(smt_cases()):])
         if mode_prop == "C16":
             cases = [c for c in cases if any(c.names)]
